@@ -34,8 +34,9 @@ therefore part of the model and used in `merged_posting` / `kmerged_posting`.  F
 index it holds only because the repaired `_insert_forward` empties the set it replaces:
 `c19_d20_unrepaired_loses_update` is the counterexample for the code before the repair.
 
-Not covered by a theorem: the facet index (own `index_doc`; object model and runtime check only)
-and the text indexes.
+The text index (lexicon, dict- and `IFBTree`-valued postings, `DICT_CUTOFF` switch) has the same
+theorems in `Properties/C19Text.lean` and `Properties/C19TextFull.lean`.
+Not covered by a theorem: the facet index (own `index_doc`; object model and runtime check only).
 -/
 set_option linter.unusedSectionVars false
 namespace Hyp.CIdx
